@@ -98,6 +98,36 @@ def fake_package(name):
     return rep
 
 
+def build_instr():
+    """build the source instrumenter (own module under /verif/tools/instr, x/tools v0.29.0 from the module cache)"""
+    out = os.path.join(BUILD, "bin", "instr")
+    os.makedirs(os.path.dirname(out), exist_ok=True)
+    env = goenv()
+    env.pop("GODEBUG", None)
+    run(["go", "build", "-o", out, "."], cwd=os.path.join(VERIF, "tools", "instr"), env=env, timeout=600)
+    return out
+
+
+def instrument(tag, files, sysroot=False, mapall=(), access=()):
+    """instrument repo files from the CURRENT working tree; returns overlay mappings original -> rewritten"""
+    instr = build_instr()
+    outdir = os.path.join(BUILD, tag, "instr")
+    shutil.rmtree(outdir, ignore_errors=True)
+    cmd = [instr, "-repo", REPO, "-out", outdir, "-files", ",".join(files)]
+    if sysroot:
+        cmd.append("-sysroot")
+    if mapall:
+        cmd += ["-mapall", ",".join(mapall)]
+    if access:
+        cmd += ["-access", ",".join(access)]
+    env = goenv()
+    env.pop("GODEBUG", None)
+    p = subprocess.run(cmd, env=env, capture_output=True, text=True, timeout=600)
+    if p.returncode != 0:
+        raise Infra("instrumenter refused or failed (exit %d): %s" % (p.returncode, (p.stdout + p.stderr)[-3000:]))
+    return {os.path.join(REPO, f): os.path.join(outdir, f) for f in files}
+
+
 def run(cmd, cwd=None, env=None, timeout=None, check=True, capture=True):
     p = subprocess.run(cmd, cwd=cwd, env=env or goenv(), timeout=timeout,
                        stdout=subprocess.PIPE if capture else None,
